@@ -42,35 +42,35 @@ func register(s *Scenario) {
 }
 
 type Result struct {
-	Prop       string             `json:"prop"`
-	Scenario   string             `json:"scenario"`
-	Engine     string             `json:"engine"`
-	Run        int                `json:"run"`
-	Seed       uint64             `json:"seed"`
-	Steps      int64              `json:"steps"`
-	SimNS      int64              `json:"sim_ns"`
-	Tasks      int                `json:"tasks"`
-	Preempts   int64              `json:"preempts"`
-	MultiReady int64              `json:"multi_ready"`
-	Deliveries int                `json:"deliveries"`
-	Faults     map[string]int     `json:"faults,omitempty"`
-	Probes     map[string]int     `json:"probes,omitempty"`
-	Shape      map[string]any     `json:"shape,omitempty"`
-	ShapeKey   string             `json:"shape_key"`
-	LogHash    string             `json:"log_hash"`
-	InputHash  string             `json:"input_hash"`
-	States     []string           `json:"states,omitempty"`
-	Verdict    string             `json:"verdict"`
-	Violations []simrt.Violation  `json:"violations,omitempty"`
-	Tape       *simrt.TapeFile    `json:"tape,omitempty"`
-	Prog       []string           `json:"prog,omitempty"`
-	Incon      map[string]int     `json:"inconclusive,omitempty"`
-	WallMS     float64            `json:"wall_ms"`
-	Anon       int                `json:"anon_tasks"`
-	Horizon    bool               `json:"horizon_hit,omitempty"`
-	StepCap    bool               `json:"step_cap,omitempty"`
-	Leftover   bool               `json:"bubble_leftover,omitempty"`
-	Log        []string           `json:"log,omitempty"`
+	Prop       string            `json:"prop"`
+	Scenario   string            `json:"scenario"`
+	Engine     string            `json:"engine"`
+	Run        int               `json:"run"`
+	Seed       uint64            `json:"seed"`
+	Steps      int64             `json:"steps"`
+	SimNS      int64             `json:"sim_ns"`
+	Tasks      int               `json:"tasks"`
+	Preempts   int64             `json:"preempts"`
+	MultiReady int64             `json:"multi_ready"`
+	Deliveries int               `json:"deliveries"`
+	Faults     map[string]int    `json:"faults,omitempty"`
+	Probes     map[string]int    `json:"probes,omitempty"`
+	Shape      map[string]any    `json:"shape,omitempty"`
+	ShapeKey   string            `json:"shape_key"`
+	LogHash    string            `json:"log_hash"`
+	InputHash  string            `json:"input_hash"`
+	States     []string          `json:"states,omitempty"`
+	Verdict    string            `json:"verdict"`
+	Violations []simrt.Violation `json:"violations,omitempty"`
+	Tape       *simrt.TapeFile   `json:"tape,omitempty"`
+	Prog       []string          `json:"prog,omitempty"`
+	Incon      map[string]int    `json:"inconclusive,omitempty"`
+	WallMS     float64           `json:"wall_ms"`
+	Anon       int               `json:"anon_tasks"`
+	Horizon    bool              `json:"horizon_hit,omitempty"`
+	StepCap    bool              `json:"step_cap,omitempty"`
+	Leftover   bool              `json:"bubble_leftover,omitempty"`
+	Log        []string          `json:"log,omitempty"`
 }
 
 func seedFor(base uint64, prop string, i int) uint64 {
@@ -447,8 +447,8 @@ type Summary struct {
 	Probes     map[string]int `json:"probes"`
 	Incon      map[string]int `json:"inconclusive"`
 	Verdicts   map[string]int `json:"verdicts"`
-	Distinct   []string       `json:"distinct"`   // hashes of (scenario,input,log) of non-trivial runs
-	Scheds     []string       `json:"scheds"`     // hashes of (scenario,log)
+	Distinct   []string       `json:"distinct"` // hashes of (scenario,input,log) of non-trivial runs
+	Scheds     []string       `json:"scheds"`   // hashes of (scenario,log)
 	States     []string       `json:"states"`
 	distinct   map[uint64]bool
 	scheds     map[uint64]bool
